@@ -69,17 +69,17 @@ Definition labels := (option (list String.string) * option (list Z))%type.
 Definition gt_labels (gt : gtin) (l : labels) : labels :=
   match gt with GRaw _ => (None, None) | _ => l end.
 
-(** heterozygosity indicators: (A != 0) & (A != ploidy) for matrix objects, (A == 1) for a raw array *)
+(** ploidy in force: the matrix's own, or the [ploidy] keyword (default 2) for a raw array (var_a / bulmer, and the dominance
+    design of gegv / predict / score / var_G) *)
+Definition eff_ploidy (gt : gtin) (arg : option Z) : Z :=
+  match gt_ploidy gt with Some k => k | None => match arg with Some k => k | None => 2%Z end end.
+
+(** heterozygosity indicators: (A != 0) & (A != ploidy), for matrix objects and raw arrays alike *)
 Definition het1 (ploidy a : Z) : Z := if negb (a =? 0)%Z && negb (a =? ploidy)%Z then 1%Z else 0%Z.
-Definition het_raw1 (a : Z) : Z := if (a =? 1)%Z then 1%Z else 0%Z.
-Definition het (gt : gtin) : zmat :=
-  match gt_ploidy gt with
-  | Some k => map (map (het1 k)) (dosage gt)
-  | None => map (map het_raw1) (dosage gt)
-  end.
+Definition het (gt : gtin) (arg : option Z) : zmat := map (map (het1 (eff_ploidy gt arg))) (dosage gt).
 (** the marker design a genotype input is turned into by predict / score / gegv / var_G *)
-Definition design (g : gmodel) (gt : gtin) : zmat :=
-  match g_cls g with CAD => hcat (dosage gt) (het gt) | _ => dosage gt end.
+Definition design (g : gmodel) (gt : gtin) (arg : option Z) : zmat :=
+  match g_cls g with CAD => hcat (dosage gt) (het gt arg) | _ => dosage gt end.
 
 (** ** predictions *)
 (** X* = [1, 1/q, ..., 1/q];  location = X* @ beta *)
@@ -103,8 +103,8 @@ Definition gebv (g : gmodel) (gt : gtin) (l : labels) : option bvout :=
   match gebv_numpy g (dosage gt) with
   | Some v => Some (addrow v (location g), gt_labels gt l)
   | None => None end.
-Definition gegv (g : gmodel) (gt : gtin) (l : labels) : option bvout :=
-  match gegv_numpy g (design g gt) with
+Definition gegv (g : gmodel) (gt : gtin) (arg : option Z) (l : labels) : option bvout :=
+  match gegv_numpy g (design g gt arg) with
   | Some v => Some (addrow v (location g), gt_labels gt l)
   | None => None end.
 (** TrueBreedingValue.estimate(ptobj, gtobj) = gpmod.gebv(gtobj) *)
@@ -114,8 +114,8 @@ Definition tbv_estimate := gebv.
 Definition predict_numpy (g : gmodel) (X Z : qmat) : option qmat :=
   if ncols_ok (nexplan_beta g) X && Nat.eqb (length Z) (length X) && ncols_ok (nexplan_u g) Z
   then Some (madd (matmul (g_t g) X (g_beta g)) (matmul (g_t g) Z (g_u g))) else None.
-Definition predict (g : gmodel) (X : qmat) (gt : gtin) (l : labels) : option bvout :=
-  match predict_numpy g X (qz (design g gt)) with
+Definition predict (g : gmodel) (X : qmat) (gt : gtin) (arg : option Z) (l : labels) : option bvout :=
+  match predict_numpy g X (qz (design g gt arg)) with
   | Some v => Some (v, gt_labels gt l)
   | None => None end.
 
@@ -139,20 +139,17 @@ Definition score_numpy (g : gmodel) (Y X Z : qmat) : option (list (option Q)) :=
     | Some yh => Some (map2 rsq (qcols (g_t g) Y) (qcols (g_t g) yh))
     | None => None end
   else None.
-Definition score (g : gmodel) (Y X : qmat) (gt : gtin) : option (list (option Q)) :=
-  score_numpy g Y X (qz (design g gt)).
+Definition score (g : gmodel) (Y X : qmat) (gt : gtin) (arg : option Z) : option (list (option Q)) :=
+  score_numpy g Y X (qz (design g gt arg)).
 
 (** var_A = variance over taxa of gebv_numpy; var_G = variance of gegv_numpy (on the class's own design) *)
 Definition var_A (g : gmodel) (gt : gtin) : option (list Q) :=
   match gebv_numpy g (dosage gt) with Some v => Some (map popvar (qcols (g_t g) v)) | None => None end.
-Definition var_G (g : gmodel) (gt : gtin) : option (list Q) :=
-  match gegv_numpy g (design g gt) with Some v => Some (map popvar (qcols (g_t g) v)) | None => None end.
+Definition var_G (g : gmodel) (gt : gtin) (arg : option Z) : option (list Q) :=
+  match gegv_numpy g (design g gt arg) with Some v => Some (map popvar (qcols (g_t g) v)) | None => None end.
 
 (** allele counts and frequencies *)
 Definition acount (gt : gtin) (p : nat) : list Z := colsumsZ p (dosage gt).
-(** ploidy used by var_a / bulmer: the matrix's own, or the argument (default 2) for a raw array *)
-Definition eff_ploidy (gt : gtin) (arg : option Z) : Z :=
-  match gt_ploidy gt with Some k => k | None => match arg with Some k => k | None => 2%Z end end.
 Definition afreq (gt : gtin) (p : nat) (ploidy : Z) : list Q :=
   map (fun c => inject_Z c / inject_Z (ploidy * gt_ntaxa gt)) (acount gt p).
 (** var_a_numpy: ploidy^2 * sum_j u_jk^2 p_j (1 - p_j) *)
@@ -169,12 +166,9 @@ Definition bulmer (g : gmodel) (gt : gtin) (arg : option Z) : option (list (opti
   | None => None end.
 
 (** ** favourable / deleterious / neutral allele statistics (per marker j, trait k) *)
-(** DenseAdditiveLinearGenomicModel: where(u > 0, c, N - c), then 0 where u == 0 *)
+(** every class: where(u > 0, c, N - c), then 0 where u == 0 *)
 Definition fa1 (u : Q) (c N : Z) : Z := if Qeq_bool u 0 then 0%Z else if Qltb 0 u then c else (N - c)%Z.
 Definition da1 (u : Q) (c N : Z) : Z := if Qeq_bool u 0 then 0%Z else if Qltb u 0 then c else (N - c)%Z.
-(** DenseLinearGenomicModel: no reset for neutral alleles *)
-Definition fa1_L (u : Q) (c N : Z) : Z := if Qltb 0 u then c else (N - c)%Z.
-Definition da1_L (u : Q) (c N : Z) : Z := if Qltb u 0 then c else (N - c)%Z.
 
 Definition maxfav (gt : gtin) : Z := (eff_ploidy gt None * gt_ntaxa gt)%Z.
 Definition per_entry {A} (f : Q -> Z -> A) (u : qmat) (c : list Z) : list (list A) :=
@@ -182,8 +176,9 @@ Definition per_entry {A} (f : Q -> Z -> A) (u : qmat) (c : list Z) : list (list 
 Definition stat {A} (g : gmodel) (gt : gtin) (f : Q -> Z -> Z -> A) : list (list A) :=
   let u := bv_effects g in per_entry (fun x c => f x c (maxfav gt)) u (acount gt (length u)).
 
-Definition fa_of (g : gmodel) := match g_cls g with CL => fa1_L | _ => fa1 end.
-Definition da_of (g : gmodel) := match g_cls g with CL => da1_L | _ => da1 end.
+(** (DenseLinearGenomicModel has its own copies of facount / dacount: the same computation on its own [u]) *)
+Definition fa_of (_ : gmodel) := fa1.
+Definition da_of (_ : gmodel) := da1.
 Definition facount g gt := stat g gt (fa_of g).
 Definition dacount g gt := stat g gt (da_of g).
 Definition fafreq g gt := stat g gt (fun u c N => inject_Z (fa_of g u c N) / inject_Z N).
@@ -201,6 +196,27 @@ Definition napoly g gt := stat g gt (fun u c N => ((0 <? c)%Z && (c <? N)%Z) && 
 
 (** ** comparison helpers for the correspondence shards *)
 Definition oqclose (a : option Q) (b : option Q) : bool := opt_eqb Qclose a b.
+(** scale-free closeness  |x - y| <= 2^-30 |y|  (y the model value): a model value that is exactly zero demands an
+    implementation value that is exactly zero, and a tiny non-zero one is told apart from zero; used for the variances and the
+    Bulmer ratio, whose binary64 evaluation on dyadic-grid inputs has a relative error of a few ulps whatever the scale *)
+Definition Qrclose (x y : Q) : bool := Qle_bool (Qabs' (x - y)) ((1 # 1073741824) * Qabs' y).
+Definition qrclose_l := list_eqb Qrclose.
+Definition oqrclose (a : option Q) (b : option Q) : bool := opt_eqb Qrclose a b.
+(** closeness relative to a given scale s:  |x - y| <= 2^-30 s *)
+Definition Qsclose (s x y : Q) : bool := Qle_bool (Qabs' (x - y)) ((1 # 1073741824) * s).
+Definition colmax (l : list Q) : Q := fold_right (fun x m => Qmax' (Qabs' x) m) 0 l.
+Fixpoint sclose_l (s x y : list Q) : bool :=
+  match s, x, y with
+  | [], [], [] => true
+  | a :: s', b :: x', c :: y' => Qsclose a b c && sclose_l s' x' y'
+  | _, _, _ => false end.
+(** every entry within 2^-30 of the scale of its column: traits of very different scale in one matrix are each compared at
+    their own scale, and an all-zero trait exactly *)
+Definition sclose_cols (s : list Q) (A B : qmat) : bool := list_eqb (sclose_l s) A B.
+(** the scale of trait k of a breeding value matrix: largest magnitude among its values plus the magnitudes of the fixed effects
+    of the trait (the location X* @ beta is rounded at the size of its terms, which may cancel) *)
+Definition bv_scale (g : gmodel) (mv : qmat) : list Q :=
+  map2 Qplus (map colmax (qcols (g_t g) mv)) (map (fun c => sumQ (map Qabs' c)) (qcols (g_t g) (g_beta g))).
 Definition bll_eqb := list_eqb bl_eqb.
 Definition lab_eqb (a b : labels) : bool :=
   opt_eqb sl_eqb (fst a) (fst b) && opt_eqb zl_eqb (snd a) (snd b).
@@ -209,9 +225,14 @@ Definition agree_E (impl model : option qmat) : bool := opt_eqb qll_eqb impl mod
 Definition agree_T (impl model : option qmat) : bool := opt_eqb qclose_ll impl model.
 Definition agree_Tl (impl model : option (list Q)) : bool := opt_eqb qclose_l impl model.
 Definition agree_To (impl model : option (list (option Q))) : bool := opt_eqb (list_eqb oqclose) impl model.
-(** a breeding value matrix: unscaled values and location within tolerance, labels equal *)
-Definition agree_bv (t : nat) (impl : option (qmat * list Q * labels)) (model : option bvout) : bool :=
+(** variances / Bulmer ratios: relative agreement, exact at zero, None (NaN) only against None *)
+Definition agree_Rl (impl model : option (list Q)) : bool := opt_eqb qrclose_l impl model.
+Definition agree_Ro (impl model : option (list (option Q))) : bool := opt_eqb (list_eqb oqrclose) impl model.
+(** a breeding value matrix: unscaled values and location within tolerance at the scale of their trait column, labels equal *)
+Definition agree_bv (g : gmodel) (impl : option (qmat * list Q * labels)) (model : option bvout) : bool :=
   match impl, model with
-  | Some (v, loc, l), Some (mv, ml) => qclose_ll v mv && qclose_l loc (map qmean (qcols t mv)) && lab_eqb l ml
+  | Some (v, loc, l), Some (mv, ml) =>
+      let s := bv_scale g mv in
+      sclose_cols s v mv && sclose_l s loc (map qmean (qcols (g_t g) mv)) && lab_eqb l ml
   | None, None => true
   | _, _ => false end.
